@@ -4,6 +4,7 @@ import (
 	"math/big"
 
 	"github.com/MinterTeam/minter-go-node/coreV2/types"
+	"github.com/MinterTeam/minter-go-node/rlp"
 )
 
 func verifSecpN() *big.Int {
@@ -68,4 +69,19 @@ func VerifHarness_C23_CheckHashCoversFields() {
 	}
 	verifAssert("C23:check-hash-covers-field", c.Hash() != base.Hash())
 	verifAssert("C23:lock-hash-covers-field", c.HashWithoutLock() != base.HashWithoutLock())
+}
+
+// C23: a check followed by trailing bytes is not a valid check encoding.
+func VerifHarness_C23_CheckTrailingBytesRejected() {
+	c := verifCheckTemplate()
+	c.Lock = big.NewInt(9)
+	c.V, c.R, c.S = big.NewInt(27), big.NewInt(2), big.NewInt(1)
+	raw, err := rlp.EncodeToBytes(c)
+	if err != nil {
+		panic(err)
+	}
+	_, err = DecodeFromBytes(raw)
+	verifAssert("C23:check-canonical-encoding-accepted", err == nil)
+	_, err = DecodeFromBytes(append(raw, 0x01))
+	verifAssert("C23:check-with-trailing-bytes-rejected", err != nil)
 }
